@@ -13,7 +13,8 @@ Line-protocol driver for the signals group (C16, C17, C18-signals).  One output 
   scenario comp owner.name.kind,… h:c.c,…       C17 machine; kind ∈ obs|comp; handler programs (`-` = none)
       define c o n TREE | assign o n v | read c | observe o n h | unobserve o n h | drop h
       TREE: ( ret v ) | ( read o n T… ) | ( readc c T… ) | ( write o n v T ) | ( fail )
-            branch i for value i, last = otherwise; `fail` = the function raises (ZeroDivisionError, `err Zero`)
+            branch i for value i, last = otherwise (also for `None`); `fail` = the function raises (ZeroDivisionError,
+            `err Zero`); a value v is an int or `N` (Python's `None`)
 -/
 open Mesa.Signals
 
@@ -56,7 +57,6 @@ def fmtDeliv (d : Nat × Sig) : String :=
 def fmtErr : Err → String
   | .value => "err Value" | .key => "err Key" | .index => "err Index" | .attr => "err Attr" | .fuel => "err Fuel"
   | .user => "err Zero"
-  | .noneVal => "ok None"
 
 def fmtOut : Out → String
   | .err e => fmtErr e
@@ -119,19 +119,22 @@ open Mesa.Computed in
 section
 open Mesa.Computed
 
+/-- an int or `N` (= `None`) -/
+def parseV (s : String) : Option V := if s = "N" then some none else s.toInt?.map some
+
 inductive Syn where
-  | ret (v : Int)
+  | ret (v : V)
   | read (k : Key) (bs : List Syn)
   | readC (c : Nat) (bs : List Syn)
-  | write (k : Key) (v : Int) (t : Syn)
+  | write (k : Key) (v : V) (t : Syn)
   | fail
 deriving Inhabited
 
-instance : Inhabited Tree := ⟨.ret 0⟩
+instance : Inhabited Tree := ⟨.ret none⟩
 
 /-- recursive descent; returns the tree and the remaining tokens -/
 partial def parseSyn : List String → Option (Syn × List String)
-  | "(" :: "ret" :: v :: ")" :: rest => do pure (.ret (← v.toInt?), rest)
+  | "(" :: "ret" :: v :: ")" :: rest => do pure (.ret (← parseV v), rest)
   | "(" :: "fail" :: ")" :: rest => some (.fail, rest)
   | "(" :: "read" :: o :: n :: rest => do
       let (bs, rest) ← parseMany rest
@@ -142,7 +145,7 @@ partial def parseSyn : List String → Option (Syn × List String)
   | "(" :: "write" :: o :: n :: v :: rest => do
       let (t, rest) ← parseSyn rest
       match rest with
-      | ")" :: rest => pure (.write (← o.toNat?, ← n.toNat?) (← v.toInt?) t, rest)
+      | ")" :: rest => pure (.write (← o.toNat?, ← n.toNat?) (← parseV v) t, rest)
       | _ => none
   | _ => none
 where
@@ -153,8 +156,10 @@ where
       let (ts, rest) ← parseMany rest
       pure (t :: ts, rest)
 
-def pick (bs : List Syn) (v : Int) : Syn :=
-  if 0 ≤ v ∧ v.toNat < bs.length then bs.getD v.toNat default else bs.getLastD default
+def pick (bs : List Syn) (v : V) : Syn :=
+  match v with
+  | some v => if 0 ≤ v ∧ v.toNat < bs.length then bs.getD v.toNat default else bs.getLastD default
+  | none => bs.getLastD default
 
 partial def toTree : Syn → Tree
   | .ret v => .ret v
@@ -189,8 +194,12 @@ def fmtO : Option Int → String
 
 def fmtEntry (e : Entry) : String := s!"{e.h}:{e.owner}.{e.name}:{fmtO e.old}>{fmtO e.new}"
 
-def fmtC (cs : CSt) (old : Mesa.Computed.St) (s : Mesa.Computed.St) (r : R) : String :=
-  let head := match r with | .ok v => s!"ok {v}" | .err e => fmtErr e
+/-- `val` = the operation hands out a value (read, define); the others answer `ok 0` -/
+def fmtC (cs : CSt) (val : Bool) (old : Mesa.Computed.St) (s : Mesa.Computed.St) (r : R) : String :=
+  let head := match r with
+    | .ok (some v) => if val then s!"ok {v}" else "ok 0"
+    | .ok none => if val then "ok None" else "ok 0"
+    | .err e => fmtErr e
   let log := " ".intercalate ((s.log.drop old.log.length).map fmtEntry)
   let evs := " ".intercalate (cs.defined.reverse.map fun c => s!"{c}:{((s.comps c).map (·.evals)).getD 0}")
   s!"{head} | {log} | {evs}"
@@ -200,25 +209,25 @@ def declKind (cs : CSt) (o n : Nat) : Option Kind :=
 
 def stepC (cs : CSt) (ws : List String) : CSt × String :=
   let s := cs.st
-  let fin (cs' : CSt) (r : Option (Mesa.Computed.St × R)) : CSt × String :=
+  let fin (cs' : CSt) (r : Option (Mesa.Computed.St × R)) (val : Bool := false) : CSt × String :=
     match r with
     | none => (cs, "err Fuel")
-    | some (s', r) => let cs'' := { cs' with st := s' }; (cs'', fmtC cs'' s s' r)
+    | some (s', r) => let cs'' := { cs' with st := s' }; (cs'', fmtC cs'' val s s' r)
   match ws with
   | "define" :: c :: o :: n :: toks =>
     match c.toNat?, o.toNat?, n.toNat?, parseSyn toks with
     | some c, some o, some n, some (syn, []) =>
       if cs.defined.contains c ∨ declKind cs o n ≠ some .comp then (cs, "bad-op")
-      else fin { cs with defined := c :: cs.defined } (step cfuel s (.define c o n (toTree syn)))
+      else fin { cs with defined := c :: cs.defined } (step cfuel s (.define c o n (toTree syn))) true
     | _, _, _, _ => (cs, "bad-op")
   | ["assign", o, n, v] =>
-    match o.toNat?, n.toNat?, v.toInt? with
+    match o.toNat?, n.toNat?, parseV v with
     | some o, some n, some v =>
       if declKind cs o n ≠ some .obs then (cs, "bad-op") else fin cs (step cfuel s (.assign (o, n) v))
     | _, _, _ => (cs, "bad-op")
   | ["read", c] =>
     match c.toNat? with
-    | some c => if cs.defined.contains c then fin cs (step cfuel s (.read c)) else (cs, "bad-op")
+    | some c => if cs.defined.contains c then fin cs (step cfuel s (.read c)) true else (cs, "bad-op")
     | none => (cs, "bad-op")
   | ["observe", o, n, h] =>
     match o.toNat?, n.toNat?, h.toNat? with
